@@ -306,6 +306,17 @@ Definition conc_labels (w : world) (st : sstate) (progs : list script) (sched : 
 Definition index_of (st : sstate) : list (str * list cid) :=
   map (fun e => (fst e, heap_get (s_heap st) (Some (snd e)))) (s_xsi st).
 
+(* the index is current: build_xsi_cache would return at its first line, and the
+   lists the state holds are the ones it would build *)
+Definition index_eqb (a b : list (str * list cid)) : bool :=
+  list_eqb (fun x y : str * list cid => str_eqb (fst x) (fst y) && lcid_eqb (snd x) (snd y)) a b.
+Definition warm_b (w : world) (st : sstate) : bool :=
+  N.eqb (s_seen st) (w_modules w) && index_eqb (index_of st) (ideal_index w).
+
+(* the loop of find_subclass is modelled with fuel; it is enough for every list of the index *)
+Definition index_short (w : world) : bool :=
+  forallb (fun e => Nat.ltb (List.length (snd e)) (sub_fuel w)) (ideal_index w).
+
 (* a state in which build_xsi_cache has run for the current world *)
 Definition warm_state (w : world) (cache : list (cid * meta)) : sstate :=
   let ix := ideal_index w in
@@ -341,5 +352,5 @@ Fixpoint ideal_reqs (w : world) (s : script) : list (cid * meta) :=
 Definition cache_known (w : world) (cache : list (cid * meta)) : bool :=
   forallb (fun e => match find_class w (fst e) with Some cd => c_ok cd | None => false end) cache.
 Definition conc_guard (w : world) (cache : list (cid * meta)) (progs : list script) : bool :=
-  world_ok w && cache_known w cache
+  world_ok w && cache_known w cache && index_short w
   && consistent (cache ++ flat_map (ideal_reqs w) progs).
